@@ -96,6 +96,80 @@ def Ev.isCall : Ev → Bool
 receiver whose (mutual) connection list is `conns`: the number of calls one completion of `e` makes -/
 def callsFrom (conns : List Nat) (e : Nat) : Nat := (conns.filter (· == e)).length
 
+/-! ### Part A2 — what the callback does: returns, raises, or comes back to its own trigger
+
+The callback of a trigger is the owner's `run`. It may raise (the owner is not ready, has failed, its function
+fails) and — outside a running parent, where signals travel depth-first — it may reach the very trigger it was
+called from before it returns. An `Act` is an event together with what the callback does IF the event fires it:
+the events it performs on the trigger while it runs (each again an `Act`), and whether it then raises. An exception
+leaves the enclosing callbacks too (they raise as well); the caller of a top-level event catches it. -/
+
+inductive Act
+  | mk (ev : Ev) (boom : Bool) (inner : List Act)
+
+/-- the memory after hearing the event, for the events that are calls -/
+def Acc.hear (lab : Nat → Label) (a : Acc) : Ev → Option (List Label)
+  | .arrive e => some (insertL (lab e) a.received)
+  | .poke => some a.received
+  | _ => none
+
+structure Trace where
+  acc : Acc
+  /-- the events that were really performed, in order -/
+  evs : List Ev
+  /-- for each of them: did the callback start -/
+  fires : List Bool
+  /-- did an exception leave the list of acts -/
+  raised : Bool
+
+/-- `resetFirst = true`: `self.reset(); self.callback()` as pinned. `false`: the callback first and the reset only
+when it has returned (seeded change C02-1). One unit of fuel per performed event. -/
+def execActs (resetFirst : Bool) (lab : Nat → Label) : Nat → Acc → List Act → Trace
+  | 0, a, _ => { acc := a, evs := [], fires := [], raised := false }
+  | _ + 1, a, [] => { acc := a, evs := [], fires := [], raised := false }
+  | n + 1, a, .mk ev boom inner :: rest =>
+    if resetFirst then
+      let a' := (a.step lab ev).1
+      if (a.step lab ev).2 then
+        let ti := execActs resetFirst lab n a' inner
+        if ti.raised || boom then
+          { acc := ti.acc, evs := ev :: ti.evs, fires := true :: ti.fires, raised := true }
+        else
+          let tr := execActs resetFirst lab n ti.acc rest
+          { acc := tr.acc, evs := ev :: (ti.evs ++ tr.evs), fires := true :: (ti.fires ++ tr.fires), raised := tr.raised }
+      else
+        let tr := execActs resetFirst lab n a' rest
+        { acc := tr.acc, evs := ev :: tr.evs, fires := false :: tr.fires, raised := tr.raised }
+    else
+      match a.hear lab ev with
+      | none =>
+        let tr := execActs resetFirst lab n (a.step lab ev).1 rest
+        { acc := tr.acc, evs := ev :: tr.evs, fires := false :: tr.fires, raised := tr.raised }
+      | some r =>
+        if covered lab a.conns r then
+          let ti := execActs resetFirst lab n { a with received := r } inner
+          if ti.raised || boom then
+            { acc := ti.acc, evs := ev :: ti.evs, fires := true :: ti.fires, raised := true }    -- no reset
+          else
+            let tr := execActs resetFirst lab n { ti.acc with received := [] } rest
+            { acc := tr.acc, evs := ev :: (ti.evs ++ tr.evs), fires := true :: (ti.fires ++ tr.fires), raised := tr.raised }
+        else
+          let tr := execActs resetFirst lab n { a with received := r } rest
+          { acc := tr.acc, evs := ev :: tr.evs, fires := false :: tr.fires, raised := tr.raised }
+
+/-- a script of top-level acts: whoever performs them catches what they raise and goes on -/
+def execTop (resetFirst : Bool) (lab : Nat → Label) (fuel : Nat) : Acc → List Act → Trace
+  | a, [] => { acc := a, evs := [], fires := [], raised := false }
+  | a, x :: rest =>
+    let t := execActs resetFirst lab fuel a [x]
+    let tr := execTop resetFirst lab fuel t.acc rest
+    { acc := tr.acc, evs := t.evs ++ tr.evs, fires := t.fires ++ tr.fires, raised := t.raised || tr.raised }
+
+/-- the firing flags of a flat history -/
+def Acc.flags (lab : Nat → Label) (a : Acc) : List Ev → List Bool
+  | [] => []
+  | ev :: rest => (a.step lab ev).2 :: Acc.flags lab (a.step lab ev).1 rest
+
 /-! ## Part B — a composite with a hand-made signal graph -/
 
 /-- a receiving channel: `run` (any-of) or `accumulate_and_run` (all-of) of a child -/
